@@ -313,6 +313,46 @@ func ladder(depth int, x T) (T, bool) {
 	return y, tensor.BackPropagate(y) == nil
 }
 
+// doubling builds h_{i+1} = h_i + h_i (both operands the same node: two equal-length paths that
+// reconverge at every level) and back-propagates it.
+func doubling(depth int, x T) (T, bool) {
+	h := x
+	for i := 0; i < depth; i++ {
+		var err error
+		h, err = h.Add(h)
+		if err != nil {
+			return nil, false
+		}
+	}
+	return h, tensor.BackPropagate(h) == nil
+}
+
+// H_C01_work: the work of one back-propagation grows polynomially with graph size.  Symbolically the
+// executor's instruction count for depth 2d is compared with the count for depth d (a linear walk at
+// most doubles it; an exponential re-walk squares it); natively a depth-40 stack must finish fast.
+func H_C01_work() {
+	d := vrt.Param("depth")
+	work := func(depth int, build func(int, T) (T, bool)) (int, bool) {
+		x, _ := mk(vrt.Nm("x", depth), []int{1}, true)
+		s0 := vrt.Steps()
+		_, ok := build(depth, x)
+		return vrt.Steps() - s0, ok
+	}
+	for _, b := range []func(int, T) (T, bool){doubling, ladder} {
+		w1, ok1 := work(d, b)
+		w2, ok2 := work(2*d, b)
+		vrt.Assert("work: back-propagation succeeds", ok1 && ok2)
+		vrt.Assert("work: doubling the graph depth at most triples the work (polynomial, not exponential)", w2 <= 3*w1+2000)
+	}
+	dx, xe := mk("y", []int{1}, true)
+	_ = xe
+	var ok bool
+	fast := vrt.TimedOK(func() { _, ok = doubling(40, dx) }, 10)
+	vrt.Assert("work: a depth-40 stack of equal-length reconvergences back-propagates in polynomial time", fast)
+	_ = ok
+	vrt.Reach("done")
+}
+
 // H_C01_ladder: a deep graph with shared sub-expressions.  Symbolically: gradient value and the
 // number of applications of any one backward rule; natively: a depth-22 ladder must finish fast.
 func H_C01_ladder() {
